@@ -48,11 +48,11 @@ structure Th where
   tid : Nat
   inst : Nat
   sec : Nat
-  pc : Nat := 0                     -- `< params.length`: the STORE_PARAM of that parameter
+  pc : Nat := 0                     -- next instruction of the section's body
+  entered : Bool := false           -- the label's STORE_PARAM sequence has run
   fast : List Nat := []             -- `fastEvent.data`
   fastIndex : Nat := 0
   ret : Nat                         -- `m_ReturnValue`
-  locals : List (Nat × Nat) := []   -- name ↦ cell
   deriving Repr, Inhabited
 
 structure State where
@@ -66,8 +66,8 @@ structure State where
   clock : Nat := 0
   scaled : Nat := 0
   lastClock : Nat := 0
-  globals : List ((Nat × Nat) × Nat) := []   -- (scope, name) ↦ cell
-  groups : List ((Nat × Nat) × Nat) := []    -- (instance, name) ↦ cell
+  vars : List ((Nat × Nat × Nat) × Nat) := []   -- (scope, owner, name) ↦ cell; owner: the thread of a
+                                                -- `local`, the instance of a `group`, 0 otherwise
   insts : List (Nat × Nat) := []             -- instance ↦ number of threads
   records : List (List Nat) := []            -- the host's `Event`s: data cells
   out : List (Nat × Nat) := []               -- printed (kind, value), reverse order
@@ -84,47 +84,50 @@ def fresh (s : State) : Nat × State := (s.nextCell, { s with nextCell := s.next
 
 /-- `ScriptVariable x;` -/
 def newNone (s : State) : Nat × State :=
-  let (c, s) := fresh s
-  (c, ap s (.newCell c))
+  (s.nextCell, ap { s with nextCell := s.nextCell + 1 } (.newCell s.nextCell))
 
 /-- `c.Clear()` -/
 def setNil (s : State) (c : Nat) : State :=
-  let (t, s) := newNone s
-  ap (ap s (.assign t c)) (.destroy t)
+  ap (ap (ap { s with nextCell := s.nextCell + 1 } (.newCell s.nextCell)) (.assign s.nextCell c)) (.destroy s.nextCell)
 
 /-- a literal into `c` -/
 def setLit (s : State) (c : Nat) : Option Nat → State
   | some v => ap s (.setInt c v)
   | none => setNil s c
 
+/-- the variable list a target lives in: the thread's, the script instance's, or a context object's -/
+def key (th : Th) (t : Tgt) : Nat × Nat × Nat :=
+  (t.scope, if t.scope = 0 then th.tid else if t.scope = 4 then th.inst else 0, t.name)
+
 def lookup (s : State) (th : Th) (t : Tgt) : Option Nat :=
-  if t.scope = 0 then (th.locals.find? (·.1 == t.name)).map (·.2)
-  else if t.scope = 4 then (s.groups.find? (·.1 == (th.inst, t.name))).map (·.2)
-  else (s.globals.find? (·.1 == (t.scope, t.name))).map (·.2)
+  (s.vars.find? (·.1 == key th t)).map (·.2)
 
 /-- `ScriptVariableList::GetOrCreateVariable` of the scope's object -/
-def getOrCreate (s : State) (th : Th) (t : Tgt) : Nat × State × Th :=
+def getOrCreate (s : State) (th : Th) (t : Tgt) : Nat × State :=
   match lookup s th t with
-  | some c => (c, s, th)
+  | some c => (c, s)
   | none =>
-    let (c, s) := newNone s
-    if t.scope = 0 then (c, s, { th with locals := th.locals ++ [(t.name, c)] })
-    else if t.scope = 4 then (c, { s with groups := s.groups ++ [((th.inst, t.name), c)] }, th)
-    else (c, { s with globals := s.globals ++ [((t.scope, t.name), c)] }, th)
+    (s.nextCell, { ap { s with nextCell := s.nextCell + 1 } (.newCell s.nextCell) with
+                     vars := s.vars ++ [(key th t, s.nextCell)] })
 
 /-- the value of variable `t` as a new variable (an `Event` argument) -/
 def copyOf (s : State) (th : Th) (t : Tgt) : Nat × State :=
   match lookup s th t with
-  | some c => let (b, s) := fresh s; (b, ap s (.copyTo c b))
+  | some c => (s.nextCell, ap { s with nextCell := s.nextCell + 1 } (.copyTo c s.nextCell))
   | none => newNone s
 
 /-- `OP_STORE_PARAM` and the store that follows it:
     `if (fastIndex < fastEvent.NumArgs()) top = fastEvent[++fastIndex]; else top = NIL;  P = top` -/
 def bindOne (s : State) (th : Th) (p : Tgt) : State × Th :=
-  let (c, s, th) := getOrCreate s th p
   if th.fastIndex < th.fast.length then
-    (ap s (.assign (th.fast.getD th.fastIndex 0) c), { th with fastIndex := th.fastIndex + 1 })
-  else (setNil s c, th)
+    (ap (getOrCreate s th p).2 (.assign (th.fast.getD th.fastIndex 0) (getOrCreate s th p).1),
+     { th with fastIndex := th.fastIndex + 1 })
+  else (setNil (getOrCreate s th p).2 (getOrCreate s th p).1, th)
+
+/-- the parameter list of a label: one `bindOne` per declared parameter, in order -/
+def bindAll (s : State) (th : Th) : List Tgt → State × Th
+  | [] => (s, th)
+  | p :: ps => bindAll (bindOne s th p).1 (bindOne s th p).2 ps
 
 /-- `m_ReturnValue.setPointerRef(value)` (`ScriptPointer::setValueRef(value, m_ReturnValue)`), `a` =
     `m_ReturnValue`, `tmp` = the value.  A plain value goes through the cell model's `endRef`; NIL leaves
@@ -147,12 +150,15 @@ def endFrom (s : State) (a tmp : Nat) : State :=
 def deleteThread (s : State) (th : Th) : State :=
   let s := ap s (.destroy th.ret)
   let s := th.fast.foldl (fun s c => ap s (.destroy c)) s
-  let s := th.locals.foldl (fun s e => ap s (.destroy e.2)) s
+  let mine := fun (e : (Nat × Nat × Nat) × Nat) => e.1.1 == 0 && e.1.2.1 == th.tid
+  let s := (s.vars.filter mine).foldl (fun s e => ap s (.destroy e.2)) s
+  let s := { s with vars := s.vars.filter (fun e => !mine e) }
   let n : Nat := ((s.insts.find? (·.1 == th.inst)).map (·.2)).getD 0
   if n ≤ 1 then
-    let s := (s.groups.filter (·.1.1 == th.inst)).foldl (fun s e => ap s (.destroy e.2)) s
+    let grp := fun (e : (Nat × Nat × Nat) × Nat) => e.1.1 == 4 && e.1.2.1 == th.inst
+    let s := (s.vars.filter grp).foldl (fun s e => ap s (.destroy e.2)) s
     { s with insts := s.insts.filter (fun e => !(e.1 == th.inst)),
-             groups := s.groups.filter (fun e => !(e.1.1 == th.inst)) }
+             vars := s.vars.filter (fun e => !grp e) }
   else { s with insts := s.insts.map (fun e => if e.1 == th.inst then (e.1, e.2 - 1) else e) }
 
 /-- `end` / `end <expr>` (`ScriptThread::EventEnd` → `ScriptVM::End` / `EndRef`), then `delete thread` -/
@@ -181,17 +187,17 @@ def runTh : Nat → State → Th → State
     match s.prog[th.sec]? with
     | none => finish s th .none                 -- end of the script: `OP_DONE`
     | some sec =>
-      if th.pc < sec.params.length then
-        let (s, th) := bindOne s th (sec.params.getD th.pc default)
-        runTh fuel s { th with pc := th.pc + 1 }
+      if !th.entered then
+        -- the label's parameter list (also when the thread falls into the label from the code above it)
+        runTh fuel (bindAll s th sec.params).1 { (bindAll s th sec.params).2 with entered := true }
       else
-        match sec.body[th.pc - sec.params.length]? with
-        | none => runTh fuel s { th with sec := th.sec + 1, pc := 0 }   -- falls into the next label
+        match sec.body[th.pc]? with
+        | none => runTh fuel s { th with sec := th.sec + 1, pc := 0, entered := false }   -- falls into the next label
         | some ins =>
           let th := { th with pc := th.pc + 1 }
           match ins with
           | .set t v =>
-            let (c, s, th) := getOrCreate s th t
+            let (c, s) := getOrCreate s th t
             runTh fuel (setLit s c v) th
           | .print t =>
             let o := match lookup s th t with
@@ -216,7 +222,7 @@ def runTh : Nat → State → Th → State
                               insts := s.insts.map (fun e => if e.1 == th.inst then (e.1, e.2 + 1) else e) }
             let s := runTh fuel s child
             -- ev.AddValue(returnValue); the VM stores the command's result into T
-            let (c, s, th) := getOrCreate s th t
+            let (c, s) := getOrCreate s th t
             let s := ap s (.assign r c)
             let s := ap s (.destroy r)
             runTh fuel s th
